@@ -237,9 +237,9 @@ func runRouter(e *Env) {
 	// the client must still be able to send
 	if !r.closed {
 		e.F.SetLink(clientIP, groupIP, simnet.Link{DelayMin: 100 * time.Microsecond})
-		r.doSend(true)
+		e.Call("probe-send", 10*time.Second, func() { r.doSend(true) })
 		s.SleepFor(c.P + 60*time.Millisecond)
-		r.doClose()
+		e.Call("final-close", 10*time.Second, r.doClose)
 	}
 	s.SleepFor(c.P + 200*time.Millisecond)
 	closeChan("stop", r.stop)
@@ -395,6 +395,10 @@ type rtTx struct {
 
 func checkRouter(r *rtRun) {
 	e, c := r.e, r.c
+	if r.closed && r.closeRet.Seq == 0 {
+		e.Violate("C14", "close-hangs", "Router.Close invoked at %v never returned", r.closeInv.T)
+		r.closeRet = Stamp{T: 1 << 60, Seq: ^uint64(0) >> 1}
+	}
 	eps := e.Eps()
 	var txs []rtTx
 	var rx []wireEv
